@@ -139,6 +139,27 @@ def GT(a, b):
 ISORT = z3.IntSort()
 
 
+class PArr:
+    """byte array given by a function index -> byte expression: a piecewise view over z3 arrays (memcpy results), kept free of
+    quantifiers and array lambdas so that every obligation stays in a fragment both z3 and cvc5 accept"""
+
+    def __init__(self, f):
+        self.f = f
+
+
+def sel(a, i):
+    return a.f(i) if isinstance(a, PArr) else z3.Select(a, i)
+
+
+def overlay(old, lo, cnt, src, src_off):
+    """old with the bytes [lo, lo+cnt) replaced by src[src_off ..]"""
+    return PArr(lambda i: z3.If(z3.And(lo <= i, i < lo + cnt), sel(src, src_off + (i - lo)), sel(old, i)))
+
+
+def shifted(old, n):
+    return PArr(lambda i: sel(old, i + n))
+
+
 def umin(a, b):
     return z3.If(LE(a, b), a, b)
 
@@ -332,10 +353,7 @@ class BufModel(Wrappers):
         def s_slice_to_uninit(I, a, pth, c):
             src, dst = deref(a[0]), deref(a[1])
             k = umin(src.len, dst.len)
-            i = z3.Int("i!")
-            old = dst.root.data
-            dst.root.data = z3.Lambda([i], z3.If(z3.And(LE(dst.off, i), LT(i - dst.off, k)),
-                                                 z3.Select(src.data, src.off + (i - dst.off)), z3.Select(old, i)))
+            dst.root.data = overlay(dst.root.data, dst.off, k, src.data, src.off)
             return k
 
         def s_index_from(I, a, pth, c):
@@ -515,10 +533,7 @@ class BufModel(Wrappers):
                 pth.assume(LE(n, room))
                 srcb = fresh("srcbytes", z3.ArraySort(ISORT, z3.BitVecSort(8)))
                 root, off = broot(sl), boff(sl)
-                i = z3.Int("i!")
-                old = root.data
-                root.data = z3.Lambda([i], z3.If(z3.And(LE(off, i), LT(i - off, n)), z3.Select(srcb, i - off),
-                                                 z3.Select(old, i)))
+                root.data = overlay(root.data, off, n, srcb, bv(0))
                 cur = blen(sl, pth)
                 bset_len(sl, z3.If(GT(n, cur), n, cur))
                 W.read_chunks.append((n, room, off, srcb))
@@ -675,7 +690,7 @@ class BufModel(Wrappers):
                 starts.append(t)
                 t = t + n
             for (arr, off, n), s in reversed(list(zip(parts, starts))):
-                e = z3.If(z3.And(LE(s, j), LT(j - s, n)), z3.Select(arr, off + (j - s)), e)
+                e = z3.If(z3.And(LE(s, j), LT(j - s, n)), sel(arr, off + (j - s)), e)
             return e
         ta, te = total(actual_parts), total(expected_parts)
         return [(label + " (length)", ta == te),
@@ -744,7 +759,7 @@ class BufModel(Wrappers):
         if not present:
             return [("advance leaves the buffer in place", z3.BoolVal(False))]
         return [("advance moves the progress cursor by exactly `amount`", sl.begin == st.begin + amount),
-                ("advance keeps length, capacity and content", z3.And(vec.len == st.len, vec.cap == st.cap, vec.data == st.data)),
+                ("advance keeps length, capacity and content", z3.And(vec.len == st.len, vec.cap == st.cap, z3.BoolVal(vec.data is st.data))),
                 ("advance returns true iff nothing is left", r == (st.begin + amount == st.len))]
 
     def check_reset(self, p):
@@ -926,7 +941,7 @@ class BufModel(Wrappers):
                         z3.Implies(st.cap == 0, GT(room, bv(0)))))
         if r.variant == 0:
             view = r.fields[0].v
-            obs.append(("fill_buf returns exactly the unread bytes", z3.And(view.len == cur[0][2], view.off == cur[0][1], view.data == vec.data)))
+            obs.append(("fill_buf returns exactly the unread bytes", z3.And(view.len == cur[0][2], view.off == cur[0][1], z3.BoolVal(view.data is vec.data))))
             obs.append(("Ok is not reported after an inner error", z3.BoolVal(W.inner_errors == 0)))
         return obs
 
@@ -976,7 +991,7 @@ class BufModel(Wrappers):
             obs.append(("the caller's buffer: length covers the k bytes, capacity unchanged",
                         z3.And(dest.len == z3.If(k > dl, k, dl), dest.cap == dc)))
             obs.append(("the caller's bytes beyond the k transferred ones are preserved",
-                        z3.Implies(z3.And(j >= k, j < dc), z3.Select(dest.data, j) == z3.Select(dd, j))))
+                        z3.Implies(z3.And(j >= k, j < dc), sel(dest.data, j) == sel(dd, j))))
             for i, (n, room, off, srcb) in enumerate(W.read_chunks):
                 obs.append(("inner read %d is given room (a zero-length request would turn into a false end-of-file)" % i,
                             z3.Implies(st.cap > 0, GT(room, bv(0)))))
